@@ -156,9 +156,12 @@ def fix(
     should_fix = True
     if not fix_even_unparsable:
         # If fix_even_unparsable wasn't set, check for templating or parse
-        # errors and suppress fixing if there were any.
-        _, num_filtered_errors = result.count_tmp_prs_errors()
-        if num_filtered_errors > 0:
+        # errors and suppress fixing if there were any. NOTE: We use the
+        # unfiltered count here (as the CLI does), because an error which
+        # is suppressed (e.g. via noqa or `ignore`) still means that we
+        # can't guarantee the validity of any fixes.
+        num_unfiltered_errors, _ = result.count_tmp_prs_errors()
+        if num_unfiltered_errors > 0:
             should_fix = False
     if should_fix:
         sql = result.paths[0].files[0].fix_string()[0]
